@@ -221,6 +221,21 @@ theorem every_decimal_has_exactly_one_reading (a b : Nat) (hb : 0 < b) :
   ⟨roundDec a b, roundDec_correct a b hb,
    fun d' h => roundsTo_unique a b hb d' _ h.1 (roundDec_correct a b hb).1 h.2 (roundDec_correct a b hb).2⟩
 
+/-- **the float codec contract without side conditions on the reader's domain**: a writer whose tokens stay inside the rounding
+    interval, read by a reader that rounds every decimal correctly, gives back every double -/
+theorem float_codec_contract_total (print : Mag → Nat × Nat) (parse : Nat × Nat → Mag)
+    (hprint : ∀ d, Canon d → 0 < (print d).2 ∧ RoundsTo (print d).1 (print d).2 d)
+    (hparse : ∀ q : Nat × Nat, 0 < q.2 → Canon (parse q) ∧ RoundsTo q.1 q.2 (parse q))
+    (d : Mag) (hd : Canon d) : parse (print d) = d := by
+  obtain ⟨hb, hr⟩ := hprint d hd
+  obtain ⟨hc, hr'⟩ := hparse (print d) hb
+  exact roundsTo_unique _ _ hb _ _ hc hd hr' hr
+
+/-- both hypotheses are satisfiable: the exact expansion is a writer, `roundDec` is a reader -/
+example : (∀ d, Canon d → 0 < ((fun d : Mag => (d.val, 1)) d).2 ∧ RoundsTo ((fun d : Mag => (d.val, 1)) d).1 ((fun d : Mag => (d.val, 1)) d).2 d) ∧
+    (∀ q : Nat × Nat, 0 < q.2 → Canon (roundDec q.1 q.2) ∧ RoundsTo q.1 q.2 (roundDec q.1 q.2)) :=
+  ⟨fun d hd => ⟨Nat.one_pos, roundsTo_self d hd⟩, fun q hq => roundDec_correct q.1 q.2 hq⟩
+
 /-- the certified reader of the driver is total: its candidate always passes the certificate (`uncertified` is never answered) -/
 theorem certified_reader_is_total (a b : Nat) (hb : 0 < b) : readDec a b = some (roundDec a b) :=
   readDec_total a b hb
